@@ -516,6 +516,29 @@ CHECKS["C19"] = {
     "assumptions": COMMON_ASSUMPTIONS,
 }
 
+CHECKS["C13"] = {
+    "sub": "c13",
+    "runner": sanitized_check,
+    "miri_ops": {"quick": 320, "thorough": 4000},
+    "asan": True,
+    "level": "exploration",
+    "technique": "runtime monitoring with sanitizers: canary-guarded sinks vs a (capacity, accepted) model; Miri and ASan on the slice writers",
+    "rule": "values of every built-in type from the boundary-dense generators x every capacity 0..=len+1 (sampled for encodings > 200 bytes) x {&mut [u8], Cursor<&mut [u8]>, Cursor<Box<[u8]>>, Writer<io::Cursor<&mut [u8]>>, Cursor<[u8; N]> for 10 N, &mut Vec, Writer<Vec>}; plus all sequences of three raw write_all calls with lengths 0..=cap+1 for capacities 0..=12 on every cursor kind; distinct = distinct hashed (type, encoding) x capacities + enumerated raw sequences",
+    "level_text": "Every sink sits inside a larger buffer filled with a canary pattern, so an overrun is observed directly; success/failure is compared with the exact rule (fits iff encoding length <= capacity), the bytes left behind with the Vec encoding, the cursor position with the bytes accepted. Raw write sequences are enumerated exhaustively for small capacities. The slice writers additionally run under Miri (both tiers) and ASan (thorough).",
+    "level_note": "Trusted: the Vec<u8> encoding as reference (its correctness is C03's subject). Values of derived types are covered through the generated-schema crates of C07-C10 via len()/exact-slice experiments.",
+    "assumptions": COMMON_ASSUMPTIONS,
+}
+
+CHECKS["C07"] = {
+    "sub": "c07",
+    "level": "exploration",
+    "technique": "runtime monitoring: len() vs bytes actually written, exact-size and one-byte-short slice experiments",
+    "rule": "built-in impls: values of every built-in CborLen type from the boundary-dense generators, slices and borrowed forms, every Token variant (all 65536 half patterns, Simple 0..=255, byte strings with bytes >= 0x18); derived impls: see the derive stage; a case is non-trivial when encoding succeeded and len() was compared; distinct by hash of (type, encoding)",
+    "level_text": "len(v) is compared with the number of bytes the encoder really writes, and the two buffer experiments (exactly len bytes suffices, len-1 fails, canary intact) are run for every value; the value spaces are unbounded so they are explored boundary-dense, the finite token sub-domains exhaustively.",
+    "level_note": "Trusted: the encoder as the source of the true length (C03 checks it).",
+    "assumptions": COMMON_ASSUMPTIONS,
+}
+
 
 def write_manifest():
     ids = [json.loads(l)["id"] for l in open(os.path.join(ROOT, "properties.jsonl"))]
